@@ -74,6 +74,9 @@ def get_name_in_module(
         obj = importlib.import_module(module)
     except ModuleNotFoundError:
         raise NameLookupError("No module named '%s'" % (module,))
+    except ImportError as exc:
+        # the module is there but no longer imports (a name it imports is gone)
+        raise NameLookupError("Module '%s' cannot be imported: %s" % (module, exc))
     walked = []
     for part in qualname.split("."):
         walked.append(part)
